@@ -294,12 +294,15 @@ class Engine:
         max_paths: int = 100_000,
         max_seconds: float = 600.0,
         max_decisions_per_path: int = 20_000,
+        cross_check: bool = False,
     ) -> None:
         self.bv = bv
         self.query_timeout_ms = query_timeout_ms
         self.max_paths = max_paths
         self.max_seconds = max_seconds
         self.max_decisions = max_decisions_per_path
+        self.cross_check = cross_check
+        self.cross_checked = 0
         self.queries = 0
         self.solver_time = 0.0
         self.paths = 0
@@ -445,7 +448,37 @@ class Engine:
         r = self._check(*assumptions)
         if r == z3.sat:
             return r, self._solver.model()
+        if r == z3.unsat and self.cross_check:
+            # an unsound `unsat` would silently drop a path: ask a second solver
+            r2 = self._cvc5(*assumptions)
+            self.cross_checked += 1
+            if r2 != "unsat":
+                self.inconclusive.append(f"z3 says unsat, cvc5 says {r2}")
+                return z3.unknown, None
         return r, None
+
+    def _cvc5(self, *assumptions: Any) -> str:
+        import cvc5
+
+        tmp = z3.Solver()
+        tmp.add(*self._solver.assertions())
+        tmp.add(*assumptions)
+        txt = tmp.to_smt2()
+        slv = cvc5.Solver()
+        slv.setLogic("ALL")
+        slv.setOption("tlimit-per", "20000")
+        sm = cvc5.SymbolManager(slv)
+        ip = cvc5.InputParser(slv, sm)
+        ip.setStringInput(cvc5.InputLanguage.SMT_LIB_2_6, txt, "q")
+        res = "unknown"
+        while True:
+            cmd = ip.nextCommand()
+            if cmd.isNull():
+                break
+            out = str(cmd.invoke(slv, sm)).strip()
+            if out in ("sat", "unsat", "unknown"):
+                res = out
+        return res
 
     def decide(self, cond: Any) -> bool:
         cond = z3.simplify(cond)
